@@ -1,22 +1,28 @@
 """C10 — LoopingCall keeps cadence without overlap and counts skipped intervals.
 
 The real `task.LoopingCall` (plain and `withCount`) on a real `task.Clock`, driven by a history of
-start / advance / fire / errback / stop / reset operations with a scripted looped function, against the
-Lean model (TwistedModel/Reactor/Looping.lean); plus the property evaluated on the real code alone by a
+start / advance / fire / errback / stop / reset operations with a scripted looped function and scripted
+callbacks on the Deferreds returned by start() (which restart / stop / reset the loop synchronously, from
+inside the firing), against the Lean model (TwistedModel/Reactor/Looping.lean); plus the property evaluated on the real code alone by a
 specification-level monitor (`_Spec`, grid arithmetic on exact integers — it knows nothing of
 `_realLastTime`, `howLong` or the model)."""
 from twisted.internet import task
 from twisted.internet.defer import Deferred
 from twisted.python.failure import Failure
 
-HEADLINE = "TwistedProps.C10.looping_call_cadence"
+HEADLINE = "TwistedProps.C10.looping_call_cadence_reentrant"
 RULE = ("histories over one LoopingCall on task.Clock: start(interval, now) with dyadic interval (1..64 ticks of "
         "2^-k s, k=0..10), advances of 0 / sub-interval / exactly-to-the-boundary / one interval / many intervals "
         "plus remainder, looped function scripted per invocation (return, raise, unfired Deferred, stop() inside, "
-        "stop()+Deferred), the Deferred fired or errbacked later, stop()/reset() at random points (also while the "
+        "stop()+Deferred; also: raise outside the Exception hierarchy, already-fired / already-failed Deferred, reset() "
+        "inside, start() inside), the Deferred fired or errbacked later, stop()/reset() at random points (also while the "
         "Deferred is unfired, also when not running → AssertionError), restart after the previous start() Deferred "
-        "fired; plain and withCount; distinct = (withCount, op-kind set, behaviours run, jump sizes, restart, reset "
-        "position, how the run ended)")
+        "fired; in 2 of 5 cases the callbacks of start()'s Deferreds are scripted too (one list of start/stop/reset "
+        "per firing: restart with/without immediate call, restart+stop, stop/reset misuse, nothing; run synchronously "
+        "inside the firing, nested firings included) and the history is biased towards runs that END (raise, "
+        "failed/already-fired Deferred, BaseException, errback, stop inside the function, stop in flight, stop between "
+        "calls); plain and withCount; distinct = (withCount, op-kind set, behaviours run, jump sizes, restart, reset "
+        "position, how the run ended, which firing site ran which callback at which nesting)")
 ASSUMES = [
     "interval > 0 (the statement's precondition); interval 0 (busy loop on task.Clock) is outside the model",
     "all times are dyadic: integers of 2^-k s, k<=10, below 2^22 ticks, so Python float + - % are exact and "
@@ -24,8 +30,16 @@ ASSUMES = [
     "the float-absorption branch of howLong (`when == when + untilNextInterval` with a non-zero increment) is not "
     "reachable on such inputs and is not covered",
     "clock.advance amounts are >= 0",
-    "start() is called again only after the previous start() Deferred has fired (its documented completion signal); "
-    "restarting while the looped function's Deferred is still unfired is outside the histories considered",
+    "start() is called again only once the previous start() Deferred has fired (its documented completion signal) — "
+    "later, or synchronously from a callback of that Deferred while it is being fired; restarting while the looped "
+    "function's Deferred is still unfired (top level or from such a callback) is outside the histories considered",
+    "callbacks of start()'s Deferred act on the LoopingCall only through start/stop/reset (they do not advance the "
+    "clock or fire the function's Deferred from inside the firing); each of their operations is individually guarded "
+    "(an AssertionError/ValueError it raises is observed, not propagated into the Deferred chain)",
+    "behaviours b (raises outside the Exception hierarchy), f (returns an already-failed Deferred), o (returns an "
+    "already-fired Deferred), e (calls reset() from inside the function, then returns), a (calls start() from inside "
+    "the function: AssertionError, converted to a failure) are run on the real code and compared with the model's "
+    "raise / raise / return / return / raise",
     "the skip-count sum is checked against the grid start + k*interval of the current start(); after reset() the "
     "statement does not say which boundaries count, so only count >= 1 and the model tie are checked there",
 ]
@@ -44,6 +58,15 @@ MANIFEST = {
             "starttime + k*interval strictly after the previous completion (start, reset) and runs in the first advance "
             "reaching it; under withCount the counts of a run sum to the number of boundaries elapsed and the user function "
             "is never skipped; stop()/failure fire start()'s Deferred exactly once and nothing is called afterwards. "
+            "Re-entrancy: the same code transcribed with the firing of start()'s Deferred as a continuation that runs the "
+            "application's callback (start/stop/reset on the same LoopingCall, nested to any depth) at the three firing "
+            "sites; proved: the firing is the last effect of every operation (stepK_eq_splice), hence every re-entrant "
+            "history is a well-formed plain history with the callbacks' operations written out after the firing "
+            "operation (reentrant_history_is_plain), and every plain step of it satisfies the headline "
+            "(looping_call_cadence_reentrant); a run restarted from inside the previous run's firing owes and delivers "
+            "its own Deferred exactly once (reentrant_stop_fires_deferred, reentrant_failure_fires_deferred); the "
+            "fire-then-clear order is refuted on a witness (fire_then_clear_counterexample); the model's recursion fuel "
+            "(one unit per nested firing) is adequate (fireStart_fuel). "
             "Invariant proof by induction over histories; model tied to task.py by differential runs event by event, and "
             "its arithmetic kernels (_intervalOf, howLong) regenerated from task.py by the translator on every run and "
             "proved equal to the model's functions (gen_* theorems; the no-drift step w + howLong = next boundary is also "
@@ -66,7 +89,8 @@ class _Boom(Exception):
 # the real code
 
 def _legal(c):
-    """no start() while the looped function's Deferred is unfired, intervals non-zero, amounts >= 0"""
+    """no start() while the looped function's Deferred is unfired (top level or from a callback of start()'s
+    Deferred), intervals non-zero, amounts >= 0"""
     sp = _Spec(c)
     for op in c["ops"]:
         if op[0] == "S" and (sp.outstanding or op[1] == 0):
@@ -74,7 +98,16 @@ def _legal(c):
         if op[0] == "A" and op[1] < 0:
             return False
         sp.apply(op)
-    return True
+    return not sp.outside
+
+
+class _BaseBoom(BaseException):
+    """a failure outside the Exception hierarchy"""
+
+
+def _failed():
+    from twisted.internet.defer import fail
+    return fail(Failure(_Boom()))
 
 
 def run_impl(c):
@@ -83,9 +116,12 @@ def run_impl(c):
     scale = 2.0 ** -c["k"]
     clock = task.Clock()
     script = [b for b in c["script"]]
+    reactions = [list(r) for r in c.get("re", [])]
     log = []
     inner = []
     invoked = [0]
+    outside = [False]
+    broken = []
 
     def tick(t):
         v = t / scale
@@ -94,10 +130,30 @@ def run_impl(c):
 
     def user(count=None):
         invoked[0] += 1
-        log.append("c%d:%s" % (tick(clock.seconds()), "-" if count is None else count))
+        try:
+            log.append("c%d:%s" % (tick(clock.seconds()), "-" if count is None else count))
+        except AssertionError as e:
+            broken.append(e)
+            raise
         b = script.pop(0) if script else "r"
         if b == "x":
             raise _Boom()
+        if b == "b":
+            raise _BaseBoom()
+        if b == "f":
+            return _failed()
+        if b == "o":
+            from twisted.internet.defer import succeed
+            return succeed(None)
+        if b == "e":
+            lc.reset()           # reset() from inside the function: a call is in progress, nothing to reschedule
+        if b == "a":
+            try:
+                lc.start(1.0)    # start() from inside the function: the loop is running -> AssertionError, no effect
+            except AssertionError:
+                raise _Boom()
+            log.append("!noassert")
+            return None
         if b in "st":
             lc.stop()
         if b in "dt":
@@ -121,21 +177,20 @@ def run_impl(c):
         lc = task.LoopingCall(user)
     lc.clock = clock
 
-    def ok(res):
-        log.append("d+")
-
-    def bad(f):
-        f.trap(_Boom)
-        log.append("d-")
-
-    out = []
-    for op in c["ops"]:
-        del log[:]
+    def do(op, top):
+        """one operation on the LoopingCall, at top level or from a callback of start()'s Deferred"""
         try:
             if op[0] == "S":
                 if inner or op[1] == 0:
-                    return "bad-op"          # restart while the function's Deferred is unfired: outside the histories
+                    outside[0] = True    # restart while the function's Deferred is unfired: outside the histories
+                    return
                 lc.start(op[1] * scale, bool(op[2])).addCallbacks(ok, bad)
+            elif op[0] == "X":
+                lc.stop()
+            elif op[0] == "R":
+                lc.reset()
+            elif not top:
+                outside[0] = True
             elif op[0] == "A":
                 clock.advance(op[1] * scale)
             elif op[0] == "F":
@@ -144,40 +199,76 @@ def run_impl(c):
             elif op[0] == "E":
                 if inner:
                     inner.pop(0).errback(Failure(_Boom()))
-            elif op[0] == "X":
-                lc.stop()
-            elif op[0] == "R":
-                lc.reset()
             else:
-                return "bad-op"
+                outside[0] = True
         except AssertionError as e:
             if "dyadic" in str(e):
+                broken.append(e)
                 raise
             log.append("!A")
         except ValueError:
             log.append("!V")
+
+    def react():
+        """what the application hung on start()'s Deferred does, synchronously, when it fires"""
+        for rop in (reactions.pop(0) if reactions else []):
+            do(rop, False)
+
+    def ok(res):
+        log.append("d+")
+        react()
+
+    def bad(f):
+        if f.check(_Boom, _BaseBoom):
+            log.append("d-")
+        else:
+            log.append("d!" + f.type.__name__)
+        react()
+
+    out = []
+    for op in c["ops"]:
+        del log[:]
+        do(op, True)
+        if broken:
+            raise broken[0]
+        if outside[0]:
+            return "bad-op"
         out.append(",".join(log) if log else "-")
     calls = clock.getDelayedCalls()
     sched = ";".join(str(tick(dc.getTime())) for dc in calls) if calls else "-"
     return "|".join(out) + " run=%d sched=%s" % (1 if lc.running else 0, sched)
 
 
+_MODEL_BEH = {"b": "x", "f": "x", "o": "r", "e": "r", "a": "x"}
+
+
+def _show_op(op):
+    return ":".join(str(x) for x in op)
+
+
 def model_line(c):
-    ops = []
-    for op in c["ops"]:
-        ops.append(":".join(str(x) for x in op))
-    return ("c" if c["wc"] else "p") + " " + (",".join(c["script"]) if c["script"] else "-") + " " + " ".join(ops)
+    ops = [_show_op(op) for op in c["ops"]]
+    script = [_MODEL_BEH.get(b, b) for b in c["script"]]
+    re_ = c.get("re", [])
+    rtxt = ";".join(",".join(_show_op(o) for o in r) if r else "-" for r in re_) if re_ else "-"
+    return ("c" if c["wc"] else "p") + " " + (",".join(script) if script else "-") + " " + rtxt + " " + " ".join(ops)
 
 
 # ---------------------------------------------------------------------------------------
 # the property on the implementation: a specification-level monitor, independent of the model
 
 class _Spec:
-    """What the statement demands, op by op.  Integers (ticks) only."""
+    """What the statement demands, op by op.  Integers (ticks) only.
+
+    A callback of start()'s Deferred may act on the LoopingCall synchronously (case["re"]: one list of
+    start/stop/reset operations per firing, consumed in order): the run it belonged to is over at that moment
+    (fired exactly once, nothing pending), so a start() made there begins a new run exactly like a start() made
+    later, and that run's own start() Deferred is owed exactly one firing."""
 
     def __init__(self, c):
         self.wc = c["wc"]
         self.script = list(c["script"])
+        self.reactions = [list(r) for r in c.get("re", [])]
         self.t = 0
         self.running = False         # between start() and stop()/failure
         self.outstanding = False     # the looped function's Deferred is unfired
@@ -188,12 +279,32 @@ class _Spec:
         self.sum = 0                 # counts passed in this run
         self.reset_seen = False
         self.runs = 0
+        self.outside = False         # the history left the class the statement speaks about
+        self.feats = []              # which re-entrant situations occurred (for tag())
+        self.depth = 0
 
     def _nextb(self, c):
         return self.st + ((c - self.st) // self.I + 1) * self.I
 
     def _boundaries(self, t):
         return (t - self.st) // self.I + 1 - self.k0
+
+    def _fire(self, exp, ok, cause):
+        """start()'s Deferred fires; then its callback acts"""
+        self.live = False
+        exp.append(("d+",) if ok else ("d-",))
+        r = self.reactions.pop(0) if self.reactions else None
+        if r is None:
+            return
+        self.feats.append("re:%s:%s%s" % (cause, "".join(o[0] + (str(o[2]) if o[0] == "S" else "") for o in r) or "none",
+                                        ":nested" if self.depth else ""))
+        self.depth += 1
+        for rop in r:
+            if rop[0] not in "SXR" or (rop[0] == "S" and (self.outstanding or rop[1] == 0)):
+                self.outside = True
+                continue
+            exp.extend(self.apply(rop))
+        self.depth -= 1
 
     def _call(self, exp):
         """the function is invoked now; returns expected events appended to exp"""
@@ -205,24 +316,22 @@ class _Spec:
         exp.append(("c", self.t, cnt))
         self.due = None
         b = self.script.pop(0) if self.script else "r"
-        if b == "x":
+        if b in "xbfa":
             self.running = False
-            self.live = False
-            exp.append(("d-",))
+            self._fire(exp, False, "raise")
             return
         if b in "st":
             self.running = False
         if b in "dt":
             self.outstanding = True
             return
-        self._completed(exp)
+        self._completed(exp, "stop-inside")
 
-    def _completed(self, exp):
+    def _completed(self, exp, cause):
         if self.running:
             self.due = self._nextb(self.t)
         else:
-            self.live = False
-            exp.append(("d+",))
+            self._fire(exp, True, cause)
 
     def apply(self, op):
         exp = []
@@ -247,20 +356,19 @@ class _Spec:
         elif k == "F":
             if self.outstanding:
                 self.outstanding = False
-                self._completed(exp)
+                self._completed(exp, "stop-inflight")
         elif k == "E":
             if self.outstanding:
                 self.outstanding = False
-                self.running = self.live = False
-                exp.append(("d-",))
+                self.running = False
+                self._fire(exp, False, "errback")
         elif k == "X":
             if not self.running:
                 return [("!A",)]
             self.running = False
             if not self.outstanding:
                 self.due = None
-                self.live = False
-                exp.append(("d+",))
+                self._fire(exp, True, "stop")
         elif k == "R":
             if not self.running:
                 return [("!A",)]
@@ -303,7 +411,7 @@ def oracle(c, out):
         gcalls = [e for e in got if e[0] == "c"]
         ecalls = [e for e in exp if e[0] == "c"]
         gskip = [e for e in got if e[0] == "z"]
-        if gcalls and was_out:
+        if gcalls and was_out and not ecalls:
             return {"key": "overlap", "detail": f"{where}: function called {gcalls} while its previous Deferred is unfired"}
         if (gcalls or gskip) and not ecalls and not (was_running or op[0] == "S"):
             return {"key": "call-after-end", "detail": f"{where}: function called {gcalls or gskip} after stop()/failure"}
@@ -324,8 +432,8 @@ def oracle(c, out):
                 return {"key": "count-after-restart" if restart else "count",
                         "detail": f"{where}: withCount passed count {g[2]}, boundaries elapsed since the previous "
                                   f"count of this start() = {e[2]}"}
-        gf = [e for e in got if e[0] in ("d+", "d-")]
-        ef = [e for e in exp if e[0] in ("d+", "d-")]
+        gf = [e for e in got if e[0].startswith("d")]
+        ef = [e for e in exp if e[0].startswith("d")]
         if gf != ef:
             return {"key": "start-deferred", "detail": f"{where}: start() Deferred events {gf}, expected {ef} "
                                                        f"(live before op: {was_live})"}
@@ -333,6 +441,9 @@ def oracle(c, out):
         ee = [e for e in exp if e[0].startswith("!")]
         if ge != ee:
             return {"key": "op-raised", "detail": f"{where}: raised {ge}, expected {ee}"}
+        if [e[0] for e in got if e[0] != "z"] != [e[0] for e in exp]:
+            return {"key": "order", "detail": f"{where}: events {got} in another order than the run structure "
+                                              f"demands {exp} (a restart made from start()'s Deferred comes after its firing)"}
     return None
 
 
@@ -362,27 +473,89 @@ def corpus():
         {"wc": False, "k": 0, "script": ["d"], "ops": [["S", 4, 0], ["A", 1], ["R"], ["A", 3], ["A", 1], ["R"], ["A", 9], ["F"], ["X"]]},
         # misuse
         {"wc": False, "k": 0, "script": [], "ops": [["X"], ["R"], ["S", -1, 1], ["S", 1, 0], ["S", 1, 0], ["X"], ["X"]]},
+        # a callback of start()'s Deferred restarts the loop synchronously (restart-on-failure / restart-on-stop):
+        # the new run's start() Deferred is owed its own single firing.  Run ended by: the function raising,
+        {"wc": False, "k": 1, "script": ["r", "x"], "re": [[["S", 1, 0]]],
+         "ops": [["S", 2, 1], ["A", 2], ["A", 1], ["A", 1], ["X"], ["A", 3]]},
+        {"wc": True, "k": 0, "script": ["r", "x", "r", "x"], "re": [[["S", 1, 0]], []],
+         "ops": [["S", 2, 1], ["A", 2], ["A", 1], ["A", 1], ["A", 1]]},
+        # … stop() while the function's Deferred was unfired, restart with an immediate call; the new run then fails,
+        {"wc": True, "k": 0, "script": ["r", "d", "r", "r", "x"], "re": [[["S", 4, 1]]],
+         "ops": [["S", 2, 1], ["A", 2], ["A", 1], ["X"], ["A", 1], ["F"], ["A", 4], ["A", 4], ["A", 9]]},
+        # … errback of the function's Deferred, stop() inside the function, plain stop() between calls,
+        {"wc": False, "k": 0, "script": ["d"], "re": [[["S", 3, 0]]], "ops": [["S", 2, 1], ["A", 5], ["E"], ["A", 3], ["X"]]},
+        {"wc": True, "k": 0, "script": ["r", "s"], "re": [[["S", 3, 1]]], "ops": [["S", 2, 1], ["A", 2], ["A", 3], ["X"], ["A", 3]]},
+        {"wc": True, "k": 0, "script": [], "re": [[["S", 3, 1]], [["S", 1, 0]]],
+         "ops": [["S", 2, 1], ["A", 2], ["X"], ["A", 3], ["X"], ["A", 1], ["X"], ["A", 5]]},
+        # … the immediate call of start(now=True) raising (the callback is attached after start() returned),
+        {"wc": False, "k": 0, "script": ["x", "r"], "re": [[["S", 2, 1]]], "ops": [["S", 1, 1], ["A", 2], ["X"]]},
+        # a chain: every restarted run fails at once and is restarted from its own errback; then stopped
+        {"wc": True, "k": 0, "script": ["r", "x", "x", "x", "r"], "re": [[["S", 2, 1]], [["S", 3, 1]], [["S", 5, 1]]],
+         "ops": [["S", 1, 0], ["A", 1], ["A", 1], ["A", 5], ["X"], ["A", 9]]},
+        # the callback restarts and stops at once (nested firing), or misuses stop()/reset() on the finished loop
+        {"wc": False, "k": 0, "script": ["x"], "re": [[["S", 2, 0], ["X"]], [["X"], ["R"], ["S", 1, 1], ["S", 1, 1]]],
+         "ops": [["S", 1, 1], ["A", 1], ["X"], ["A", 4]]},
+        {"wc": True, "k": 2, "script": ["r", "t"], "re": [[["R"], ["S", 4, 0], ["R"]]],
+         "ops": [["S", 4, 1], ["A", 4], ["A", 1], ["F"], ["A", 3], ["A", 1], ["A", 4], ["X"]]},
+        # failures outside the Exception hierarchy, already-fired Deferreds returned by the function
+        {"wc": False, "k": 0, "script": ["o", "b"], "re": [[["S", 1, 0]]], "ops": [["S", 2, 1], ["A", 2], ["A", 1], ["X"]]},
+        {"wc": True, "k": 0, "script": ["r", "o", "f"], "re": [], "ops": [["S", 2, 0], ["A", 2], ["A", 2], ["A", 2], ["A", 2]]},
+        # reset() / start() from inside the looped function
+        {"wc": True, "k": 0, "script": ["e", "r", "e", "a"], "re": [[["S", 2, 0]]],
+         "ops": [["S", 3, 1], ["A", 3], ["A", 4], ["A", 2], ["A", 2], ["X"]]},
     ]
 
 
-def _gen_case(rng):
+def _gen_reaction(rng, interval):
+    r = rng.random()
+    if r < 0.50:
+        return [["S", interval(), rng.randint(0, 1)]]
+    if r < 0.60:
+        return []
+    if r < 0.70:
+        return [["S", interval(), rng.randint(0, 1)], ["X"]]
+    if r < 0.76:
+        return [["X"]]
+    if r < 0.82:
+        return [["R"]]
+    if r < 0.88:
+        return [rng.choice([["X"], ["R"]]), ["S", interval(), rng.randint(0, 1)]]
+    if r < 0.94:
+        return [["S", interval(), 0], ["R"]]
+    return [rng.choice([["S", interval(), rng.randint(0, 1)], ["X"], ["R"], ["S", -2, 1]]) for _ in range(rng.randint(2, 4))]
+
+
+def _gen_case(rng, reactive=False):
     wc = rng.random() < 0.6
     k = rng.choice([0, 0, 1, 2, 3, 5, 10])
-    script = [rng.choice("rrrrrrddxst" if rng.random() < 0.8 else "rdddxst") for _ in range(rng.choice([0, 0, 1, 2, 3, 5, 8]))]
+    if reactive:
+        # runs must END (failure, stop inside, stop in flight, stop between calls) for the callbacks to run
+        alphabet = "rrrddxxsstbfae" if rng.random() < 0.7 else "rrrrrrrdxstoe"
+        script = [rng.choice(alphabet) for _ in range(rng.choice([1, 2, 3, 5, 8, 12]))]
+    else:
+        script = [rng.choice("rrrrrrddxst" if rng.random() < 0.8 else "rdddxstobfae") for _ in range(rng.choice([0, 0, 1, 2, 3, 5, 8]))]
     c = {"wc": wc, "k": k, "script": script, "ops": []}
-    sp = _Spec(c)
-    ops = []
-    n = rng.choice([3, 5, 8, 12, 20, 30])
 
     def interval():
         return rng.choice([1, 1, 2, 3, 4, 5, 7, 8, 16, rng.randint(1, 64)])
+
+    if reactive:
+        c["re"] = [_gen_reaction(rng, interval) for _ in range(rng.choice([1, 1, 2, 3, 4, 6]))]
+    sp = _Spec(c)
+    ops = []
+    n = rng.choice([3, 5, 8, 12, 20, 30])
+    if reactive:
+        n = rng.choice([5, 8, 12, 20, 30])
+    pstop = 0.16 if reactive else 0.08
 
     if rng.random() < 0.06:
         ops.append(rng.choice([["X"], ["R"], ["A", 3], ["S", -rng.randint(1, 4), 1]]))
     else:
         ops.append(["S", interval(), rng.randint(0, 1)])
     sp.apply(ops[0])
-    while len(ops) < n:
+    tries = 0
+    while len(ops) < n and tries < 10 * n:
+        tries += 1
         r = rng.random()
         if not sp.running and not sp.outstanding:
             if r < 0.55:
@@ -394,22 +567,22 @@ def _gen_case(rng):
         elif sp.outstanding:
             if r < 0.35:
                 op = ["F"]
-            elif r < 0.42:
+            elif r < 0.42 + pstop - 0.08:
                 op = ["E"]
-            elif r < 0.52:
+            elif r < 0.52 + 2 * (pstop - 0.08):
                 op = ["X"] if sp.running or rng.random() < 0.2 else ["F"]
-            elif r < 0.58:
+            elif r < 0.58 + 2 * (pstop - 0.08):
                 op = ["R"]
             else:
                 op = ["A", rng.choice([0, 1, sp.I, sp.I - 1 or 1, 2 * sp.I + 1, rng.randint(0, 5 * sp.I)])]
         else:
             I = sp.I
             togo = (sp.due - sp.t) if sp.due is not None else I
-            if r < 0.72:
+            if r < 0.72 - (pstop - 0.08):
                 op = ["A", rng.choice([togo, togo, togo - 1 if togo > 1 else 1, 1, I, I, 2 * I, 0,
                                        rng.randint(1, I), rng.randint(2, 9) * I + rng.randint(0, I - 1),
                                        togo + rng.randint(2, 6) * I])]
-            elif r < 0.80:
+            elif r < 0.80 - (pstop - 0.08):
                 op = ["R"]
             elif r < 0.88:
                 op = ["X"]
@@ -419,24 +592,31 @@ def _gen_case(rng):
                 op = rng.choice([["F"], ["E"]])
         if op[0] == "S" and sp.outstanding:
             continue
+        if reactive:
+            # keep the history inside the class: a callback must not restart while the function's Deferred is unfired
+            import copy
+            trial = copy.deepcopy(sp)
+            trial.apply(op)
+            if trial.outside:
+                continue
+            sp = trial
+        else:
+            sp.apply(op)
         ops.append(op)
-        sp.apply(op)
     c["ops"] = ops
     return c
 
 
 def generate(rng, tier):
     n = 3000 if tier == "quick" else 60000
-    for _ in range(n):
-        yield _gen_case(rng)
+    for i in range(n):
+        yield _gen_case(rng, reactive=(i % 5 in (1, 3)))
 
 
-def shrink(c):
+def _shrinks(c):
     ops = c["ops"]
     for i in range(len(ops)):
-        cand = dict(c, ops=ops[:i] + ops[i + 1:])
-        if _legal(cand):
-            yield cand
+        yield dict(c, ops=ops[:i] + ops[i + 1:])
     if c["k"]:
         yield dict(c, k=0)
     s = c["script"]
@@ -444,12 +624,28 @@ def shrink(c):
         yield dict(c, script=s[:i] + s[i + 1:])
         if s[i] != "r":
             yield dict(c, script=s[:i] + ["r"] + s[i + 1:])
+    re_ = c.get("re", [])
+    if re_:
+        yield {k: v for k, v in c.items() if k != "re"}
+    for i in range(len(re_)):
+        yield dict(c, re=re_[:i] + re_[i + 1:])
+        if re_[i]:
+            yield dict(c, re=re_[:i] + [[]] + re_[i + 1:])
+        for j in range(len(re_[i])):
+            yield dict(c, re=re_[:i] + [re_[i][:j] + re_[i][j + 1:]] + re_[i + 1:])
+            o = re_[i][j]
+            if o[0] == "S" and abs(o[1]) > 1:
+                yield dict(c, re=re_[:i] + [re_[i][:j] + [["S", 1, o[2]]] + re_[i][j + 1:]] + re_[i + 1:])
     for i, op in enumerate(ops):
         if op[0] in "AS" and abs(op[1]) > 1:
             for v in (1, op[1] // 2, op[1] - 1):
-                cand = dict(c, ops=ops[:i] + [[op[0], v] + op[2:]] + ops[i + 1:])
-                if _legal(cand):
-                    yield cand
+                yield dict(c, ops=ops[:i] + [[op[0], v] + op[2:]] + ops[i + 1:])
+
+
+def shrink(c):
+    for cand in _shrinks(c):
+        if _legal(cand):
+            yield cand
 
 
 def tag(c, out):
@@ -480,6 +676,7 @@ def tag(c, out):
         for e in exp:
             if e[0] in ("d-", "!A", "!V"):
                 feats.add(e[0])
-        if len(sp.script) < lenb:
-            feats.add("b" + c["script"][len(c["script"]) - lenb])
+        for j in range(len(c["script"]) - lenb, len(c["script"]) - len(sp.script)):
+            feats.add("b" + c["script"][j])
+    feats.update(sp.feats)
     return " ".join(sorted(feats))
